@@ -235,12 +235,12 @@ pub fn gen_matmul_rank1(r: &mut Rng, k: usize) -> OpCase {
     let lead: Vec<usize> = if r.chance(1, 3) { vec![r.range(2, 3)] } else { vec![] };
     let (kind, dims, cell): (OpKind, Vec<Vec<usize>>, String) = match k % 6 {
         // dot product
-        0 => (OpKind::Matmul { ta: false, tb: false, c: false }, vec![vec![kk], vec![kk]], "matmul|dot".into()),
+        0 => (OpKind::Matmul { ta: false, tb: false, c: r.chance(1, 2) }, vec![vec![kk], vec![kk], vec![1]], "matmul|dot".into()),
         // vector (one-row matrix) x matrix
         1 => {
             let mut db = lead.clone();
             db.extend(&[kk, n]);
-            (OpKind::Matmul { ta: false, tb: false, c: false }, vec![vec![kk], db], "matmul|vec-mat".into())
+            (OpKind::Matmul { ta: false, tb: false, c: r.chance(1, 2) }, vec![vec![kk], db, vec![n]], "matmul|vec-mat".into())
         }
         // vector x matrix^T (the dense layer form)
         2 => {
@@ -252,19 +252,19 @@ pub fn gen_matmul_rank1(r: &mut Rng, k: usize) -> OpCase {
         3 => {
             let mut db = lead.clone();
             db.extend(&[1, n]);
-            (OpKind::Matmul { ta: true, tb: false, c: false }, vec![vec![kk], db], "matmul|vecT-mat".into())
+            (OpKind::Matmul { ta: true, tb: false, c: r.chance(1, 2) }, vec![vec![kk], db, vec![n]], "matmul|vecT-mat".into())
         }
         // matrix x vector^T : [m,k] x [k]^T -> [m,1]
         4 => {
             let mut da = lead.clone();
             da.extend(&[n, kk]);
-            (OpKind::Matmul { ta: false, tb: true, c: false }, vec![da, vec![kk]], "matmul|mat-vecT".into())
+            (OpKind::Matmul { ta: false, tb: true, c: r.chance(1, 2) }, vec![da, vec![kk], vec![1]], "matmul|mat-vecT".into())
         }
         // matrix with one column x vector (one-row matrix): [m,1] x [1,k] -> [m,k]
         _ => {
             let mut da = lead.clone();
             da.extend(&[n, 1]);
-            (OpKind::Matmul { ta: false, tb: false, c: false }, vec![da, vec![kk]], "matmul|col-vec".into())
+            (OpKind::Matmul { ta: false, tb: false, c: r.chance(1, 2) }, vec![da, vec![kk], vec![kk]], "matmul|col-vec".into())
         }
     };
     let has_c = matches!(kind, OpKind::Matmul { c: true, .. });
@@ -272,6 +272,7 @@ pub fn gen_matmul_rank1(r: &mut Rng, k: usize) -> OpCase {
     let vals = dims.iter().map(|d| rand_ints(r, numel(d), -3, 3)).collect();
     let nops = dims.len();
     let mask = mask_of(nops, r.below((1 << nops) - 1));
+    let cell = if has_c { format!("{}+c", cell) } else { cell };
     OpCase { kind, dims, vals, mask, cell }
 }
 
